@@ -3,7 +3,10 @@ import OntVerif.Model.Ripemd160
 /-!
 Line driver for C16 (and the shared line parser for C17).
 
-    T <raw> M=<txhash|-> K=<keys|-> S=<sigs|-> V=<pairs|-> W=<0|1> X=<claim|-> G=<tag>
+    T <raw> M=<txhash|-> K=<keys|-> S=<sigs|-> V=<pairs|-> W=<0|1> X=<claim|-> G=<tag> [P=<pre-ops|->]
+
+`P`: operations on the transaction OBJECT before the final `VerifyTransaction`, joined by `.`: `g` =
+`GetSignatureAddresses()`, `v` = `VerifyTransaction`, `h` = `Hash()`, `r` = `ToArray()`, `s<addr>` = `tx.SignedAddr = [addr]`.
 
 The `K/S/V/W` fields are what the real crypto library says about every key / signature / (key, signature) pair
 that occurs in the scripts of `raw` (see `harness/internal/siggen`); they instantiate the abstract `Crypto` of
@@ -52,16 +55,35 @@ def parsePairEnt (e : String) : Option (Nat × Nat × Bool) :=
     | _, _ => none
   | _ => none
 
-/-- the fields of an op line: raw bytes and oracle -/
-def parseLine (line : String) : Option (Bytes × Orc) :=
+def parsePreOp (t : String) : Option PreOp :=
+  if t == "g" then some .getAddrs
+  else if t == "v" then some .verify
+  else if t == "h" then some .hash
+  else if t == "r" then some .toArray
+  else if t.startsWith "s" then (unhex (t.drop 1).toString).map fun a => .setAddrs [a]
+  else none
+
+def parsePre (f : String) : Option (List PreOp) :=
+  match stripPre "P=" f with
+  | none => none
+  | some v => if v == "-" then some [] else (v.splitOn ".").mapM parsePreOp
+
+def parseMain (raw m k s v w : String) : Option (Bytes × Orc) :=
+  match unhex raw, stripPre "M=" m, stripPre "K=" k, stripPre "S=" s, stripPre "V=" v, stripPre "W=" w with
+  | some raw, some m, some k, some s, some v, some w =>
+    match unhex m, (splitList k).mapM parseKeyEnt, (splitList s).mapM parseSigEnt, (splitList v).mapM parsePairEnt with
+    | some m, some ks, some ss, some vs => some (raw, ⟨m, ks, ss, vs, w == "1"⟩)
+    | _, _, _, _ => none
+  | _, _, _, _, _, _ => none
+
+/-- the fields of an op line: raw bytes, oracle, pre-operations -/
+def parseLine (line : String) : Option (Bytes × Orc × List PreOp) :=
   match fields line with
-  | ["T", raw, m, k, s, v, w, _, _] =>
-    match unhex raw, stripPre "M=" m, stripPre "K=" k, stripPre "S=" s, stripPre "V=" v, stripPre "W=" w with
-    | some raw, some m, some k, some s, some v, some w =>
-      match unhex m, (splitList k).mapM parseKeyEnt, (splitList s).mapM parseSigEnt, (splitList v).mapM parsePairEnt with
-      | some m, some ks, some ss, some vs => some (raw, ⟨m, ks, ss, vs, w == "1"⟩)
-      | _, _, _, _ => none
-    | _, _, _, _, _, _ => none
+  | ["T", raw, m, k, s, v, w, _, _] => (parseMain raw m k s v w).map fun (r, o) => (r, o, [])
+  | ["T", raw, m, k, s, v, w, _, _, p] =>
+    match parseMain raw m k s v w, parsePre p with
+    | some (r, o), some ops => some (r, o, ops)
+    | _, _ => none
   | _ => none
 
 def mkCrypto (o : Orc) : Crypto Nat Nat where
@@ -135,33 +157,47 @@ def codeW : Code → String
   | .transactionPayload => "payload"
   | .panic => "PANIC"
 
-def outFor (cfg : Cfg) (o : Orc) (tx : Tx) : String :=
+def preOutW : PreOp → PreOut → String
+  | .getAddrs, .addrs as => "g:" ++ addrSetW as
+  | .verify, .code c _ => "v:" ++ codeW c
+  | .hash, _ => "h"
+  | .toArray, _ => "r"
+  | .setAddrs _, _ => "s"
+  | _, _ => "?"
+
+def presW (ops : List PreOp) (outs : List PreOut) : String :=
+  if ops.isEmpty then "-" else "|".intercalate ((ops.zip outs).map fun (op, x) => preOutW op x)
+
+def outFor (cfg : Cfg) (o : Orc) (tx : Tx) (ops : List PreOp) : String :=
   let C := mkCrypto o
-  let vf : Nat → Nat → VRes := fun k s => vres cfg (C.verify k (txMsg C tx) s)
-  let (code, addrs) := verifyTransaction cfg C (fun _ => o.wasm) tx
+  let vf : Nat → Nat → VRes := verifier C tx
+  let (outs, o1) := runPres cfg C (fun _ => o.wasm) ⟨tx, []⟩ ops
+  let (code, o2) := verifyObj cfg C (fun _ => o.wasm) o1
   let signed := match code with
-    | .noError | .transactionPayload => addrSetW addrs
+    | .noError | .transactionPayload => addrSetW o2.signedAddr
     | _ => "-"
   let ds := if tx.sigs.isEmpty then "-" else "/".intercalate (tx.sigs.map (setDiagW C.toLib vf))
-  s!"code={codeW code} signed={signed} sets={ds}"
+  let seenAfter := match code with
+    | .panic => "-"
+    | _ => addrSetW (getSigAddrs cfg C.toLib o2).1
+  s!"code={codeW code} signed={signed} sets={ds} pre={presW ops outs} seen={seenAfter}"
 
 def dedup (l : List String) : List String :=
   l.foldl (fun acc s => if acc.contains s then acc else acc ++ [s]) []
 
 def cfgs16 : List Cfg :=
-  [⟨.asShipped, .asShipped, .asShipped⟩, ⟨.sound, .asShipped, .asShipped⟩,
-   ⟨.asShipped, .sound, .asShipped⟩, ⟨.sound, .sound, .asShipped⟩]
+  [⟨.asShipped, .asShipped⟩, ⟨.sound, .asShipped⟩, ⟨.asShipped, .sound⟩, ⟨.sound, .sound⟩]
 
 def handle (line : String) : String :=
   match parseLine line with
   | none => "bad-op"
-  | some (raw, o) =>
+  | some (raw, o, ops) =>
     match fromRawBytes noRlp raw with
     | .err _ => "deser-err"
     | .panic => "PANIC-decode"
     | .ok tx _ =>
       match tx.payload with
       | .eip _ => "eip"
-      | _ => " ## ".intercalate (dedup (cfgs16.map fun cfg => outFor cfg o tx))
+      | _ => " ## ".intercalate (dedup (cfgs16.map fun cfg => outFor cfg o tx ops))
 
 end OntVerif.Driver.C16
